@@ -13,13 +13,12 @@ PROPS_FILE = "theories/Props/C03doc.v"
 BUILD_TARGETS = ["theories/Corr/C03doc.vo", "theories/Props/C03doc.vo"]
 THEOREMS = ["C03_meta_split", "C03_meta_shape", "C03_meta_no_header", "C03_meta_header", "C03_meta_header_fenced",
             "C03_read_metadata_split", "C03_read_metadata_oneline",
-            "C03_admon_words", "C03_admon_total", "C03_admon_words_partial", "C03_refuted_pretext",
-            "C03_refuted_pretext_witness",
+            "C03_admon_words", "C03_admon_total", "C03_admon_split_words", "C03_pretext_fixed",
+            "C03_inside_word_fixed",
             "C03_admon_errors", "C03_admon_end_without_start", "C03_admon_end_type_mismatch",
-            "C03_admon_indent_step", "C03_admon_indent", "C03_admon_indent_exact_partial", "C03_refuted_pullin",
-            "C03_refuted_pullin_witness"]
+            "C03_admon_indent_step", "C03_admon_rest_untouched", "C03_admon_indent", "C03_admon_indent_exact",
+            "C03_pullin_fixed"]
 
-ADMON_REGION_KEYS = {1: "doc-text-before-note-dropped"}
 
 
 def report(chk, kind, payload, found):
@@ -65,7 +64,10 @@ def admon_inputs(chk):
         seen.add(t)
         return (list(lines), layer)
 
-    corpus = [["alpha beta @note gamma"], ["@note", "a", "@endnote", "b"], ["@note a", "@warning b"],
+    # the former witnesses of the two repaired defects come first (regression inputs)
+    corpus = [["alpha beta @note gamma"], ["mail joe@notebook.org now"], ["@note a", "b @warning c"],
+              ["x @endnote @note y"], ["@note", "a", "@endnote", "b"], ["@note a", "@warning b"],
+              ["@note x @endnote", "next"],
               ["@endnote @note x"], ["@note", "x", "", "y", "@endwarning"], ["@note a @endnote @endnote"],
               ["- item", "  @note x", "  y", "- item2"], ["@note", "```", "code", "```", "@endnote", "", "after"]]
     for c in corpus:
@@ -124,14 +126,14 @@ def part_admon(chk):
                   sample={"lines": lines, "impl": res} if nontriv and len(lines) > 2 else None)
     terms = [f"({coq_list(coq_str(l) for l in lines)}, {coq_admon_impl(res)})" for lines, res in cases]
     out = chk.coq_judge(IMPORTS, "list str * (list str + nat)", "judge_admon", terms, shard=400)
-    hits = {0: 0, 1: 0, 2: 0}
-    viol_in_region = {1: 0, 2: 0}
+    hits = {0: 0, 2: 0}
+    viol_in_region = {2: 0}
     errs = sum(1 for _, r in cases if r[0] == "err")
     if out is not None:
         chk.traces += len(cases)
         for idx in range(len(cases)):
             code = out.get(idx, 0)
-            hits[min(code >> 2, 2)] += 1
+            hits[2 if code >> 2 else 0] += 1
         for idx, code in sorted(out.items()):
             lines, res = cases[idx]
             region = code >> 2
@@ -144,9 +146,7 @@ def part_admon(chk):
                         "impl": res, "code": code}, found)
             elif code & 2:
                 chk.disagreements += 1
-                if region == 1 and chk.known(ADMON_REGION_KEYS[1], True):
-                    viol_in_region[1] += 1
-                elif region == 2:
+                if region == 2:
                     viol_in_region[2] += 1      # outside the word-level specification (glued / repeated markers)
                 else:
                     chk.violation("failing-input",
@@ -244,6 +244,15 @@ def check_entity(d, got):
         outside = [w for w in d["inside"] if w not in boxed]
         if outside and words == d["words"]:
             probs.append(("box-text-outside-box", {"words": outside}))
+    if d.get("after"):
+        # support for C03_admon_indent_exact: text after a box closed by its end marker is not in a box
+        import bs4
+        boxed = set()
+        for div in bs4.BeautifulSoup(got["doc"] or "", "html.parser").find_all("div", class_="alert"):
+            boxed |= set(TW.findall(div.get_text()))
+        pulled = [w for w in d["after"] if w in boxed]
+        if pulled and words == d["words"]:
+            probs.append(("text-after-box-inside-box", {"words": pulled}))
     if got["summary"]:
         import bs4
         sw = TW.findall(bs4.BeautifulSoup(got["summary"], "html.parser").get_text())
@@ -256,9 +265,9 @@ def part_e2e(chk):
     rng = chk.rng
     quick = chk.tier == "quick"
     nproj = 150 if quick else 3000
-    kinds, nent, nmiss, known_hits = {}, 0, 0, 0
+    kinds, nent, nmiss = {}, 0, 0
     for pi in range(nproj):
-        knobs = {"pretext": True} if pi % 10 == 9 else {}
+        knobs = {"pretext": True} if pi % 5 == 4 else {}
         files, expected = G.gen_doc_project(rng, knobs)
         kind, out = I.run_doc_project(files)
         if kind == "err":
@@ -280,9 +289,6 @@ def part_e2e(chk):
             if not probs:
                 continue
             chk.disagreements += 1
-            if d["region"] and all(p[0] == "words" for p in probs) and chk.known(d["region"], True):
-                known_hits += 1
-                continue
             chk.violation("failing-input",
                           {"what": "rendered documentation of an entity does not carry its comment's words exactly "
                                    "once and in order / metadata not split off", "part": "e2e", "entity": list(key),
@@ -299,20 +305,57 @@ def part_e2e(chk):
             chk.violation("failing-input", {"what": "an unmatched end marker (%s) did not raise" % why, "part": "e2e",
                                             "files": files, "result": str(out)[:500]}, True)
     chk.extra["e2e"] = {"projects": nproj, "entities": nent, "entities_not_found": nmiss, "block_kinds": kinds,
-                        "known_region_entities": known_hits, "error_docs": nerr}
+                        "error_docs": nerr}
 
 
-# ---------------------------------------------------------------- D. recorded findings: replay the witnesses
-def part_findings(chk):
-    r = I.run_admon(["alpha beta @note gamma"])
-    still = r[0] == "ok" and "alpha" not in " ".join(r[1])
-    chk.known("doc-text-before-note-dropped", still)
-    r1 = I.run_admon(["@note", "a", "@endnote", "b"])
-    r2 = I.run_admon(["@note a", "@warning b"])
-    still = (r1 == ("ok", ["@note Note", "    a", "    b"])
-             or r2 == ("ok", ["@note Note", "     a", "    @note Warning", "     b"]))
-    chk.known("doc-line-after-box-indented", still)
-    chk.extra["findings_replayed"] = {"pretext": r, "pullin": r1, "consecutive": r2}
+# ---------------------------------------------------------------- D. repaired defects: regression witnesses
+def box_facts(lines):
+    """(words inside any box, nested?) of the HTML python-markdown makes of the lines"""
+    import bs4
+    import markdown
+    from ford.md_admonition import AdmonitionExtension
+    html = markdown.Markdown(extensions=[AdmonitionExtension()]).convert("\n".join(lines))
+    soup = bs4.BeautifulSoup(html, "html.parser")
+    boxes = soup.find_all("div", class_="alert")
+    inside = set(w for b in boxes for w in b.get_text().split())
+    nested = any(b.find_parent("div", class_="alert") is not None for b in boxes)
+    return html, inside, nested, set(soup.get_text().split())
+
+
+def part_regressions(chk):
+    """The witnesses of the defects repaired in /repo (known_findings.d/C03.json, "fixed"): a defect that
+    returns is a failing input, not a known finding."""
+    res = {}
+    # doc-text-before-note-dropped
+    for lines, must in ((["alpha beta @note gamma"], {"alpha", "beta", "gamma"}),
+                        (["mail joe@notebook.org now"], {"mail", "joe@notebook.org", "now"})):
+        r = I.run_admon(lines)
+        html, inside, nested, allw = box_facts(lines)
+        res[" / ".join(lines)] = r
+        chk.count(("regression", tuple(lines)), nontrivial=True)
+        if not must <= allw or (lines[0].startswith("mail") and inside):
+            chk.violation("failing-input", {"what": "text before `@note` on the same line is lost again, or `@note` fires "
+                                            "inside a word (doc-text-before-note-dropped returned)", "part": "admon",
+                                            "lines": lines, "impl": r, "html": html}, True)
+    # doc-line-after-box-indented
+    for lines, outside in ((["@note", "a", "@endnote", "b"], "b"), (["@note x @endnote", "b"], "b")):
+        r = I.run_admon(lines)
+        html, inside, nested, allw = box_facts(lines)
+        res[" / ".join(lines)] = r
+        chk.count(("regression", tuple(lines)), nontrivial=True)
+        if outside in inside:
+            chk.violation("failing-input", {"what": "the line after the end of a box is pulled into the box again "
+                                            "(doc-line-after-box-indented returned)", "part": "admon", "lines": lines,
+                                            "impl": r, "html": html}, True)
+    lines = ["@note a", "@warning b"]
+    r = I.run_admon(lines)
+    html, inside, nested, allw = box_facts(lines)
+    res[" / ".join(lines)] = r
+    chk.count(("regression", tuple(lines)), nontrivial=True)
+    if nested:
+        chk.violation("failing-input", {"what": "consecutive boxes are nested again (doc-line-after-box-indented "
+                                        "returned)", "part": "admon", "lines": lines, "impl": r, "html": html}, True)
+    chk.extra["regression_witnesses"] = res
 
 
 # ---------------------------------------------------------------- E. pattern fingerprints
@@ -321,7 +364,7 @@ FINGERPRINTS = {
     "utils.META_MORE_RE": ('^[ ]{4,}(?P<value>.*)', 32),
     "utils.BEGIN_RE": ('^-{3}(\\s.*)?', 32),
     "utils.END_RE": ('^(-{3}|\\.{3})(\\s.*)?', 32),
-    "md_admonition.ADMONITION_RE": ('(?P<indent>\\s*)\n        @(?P<type>note|warning|todo|bug|history)\n        '
+    "md_admonition.ADMONITION_RE": ('(?P<indent>\\s*)\n        (?<!\\S)@(?P<type>note|warning|todo|bug|history)\n        '
                                     '(?P<posttxt>.*)\n        ', 98),
     "md_admonition.END_RE": ('\\s*@end(?P<type>note|warning|todo|bug|history)\n        \\s*(?P<posttxt>.*)?', 98),
 }
@@ -349,7 +392,7 @@ def run_part(chk):
     part_admon(chk)
     part_meta(chk)
     part_e2e(chk)
-    part_findings(chk)
+    part_regressions(chk)
     flush_deferred(chk)
 
 
